@@ -667,7 +667,8 @@ def is_subdir(base_path, test_path, trailing_slash=False, wildcards=False):
             test_path += '/'
 
     if wildcards:
-        return fnmatch.fnmatchcase(test_path, base_path)
+        # The base path ends with a slash: anything below it is a subpath.
+        return fnmatch.fnmatchcase(test_path, base_path + '*')
     else:
         return test_path.startswith(base_path)
 
